@@ -5,6 +5,7 @@ import numpy as np
 from symx import terms as T
 from symx.framework import Obligation, V
 from symx.shim import Recorder
+from symx.engine import SymBool
 from . import common as H
 from .common import K, Mode
 
@@ -225,6 +226,104 @@ class SedovEOS(Obligation):
         pos = (rho > 0) if cx.symbolic else bool(rho > 0)
         cx.eq('p=(gamma-1)*rho*e', p, (g - 1) * rho * e, when=pos)
         cx.eq('c^2=gamma*p/rho', c * c * rho, g * p, when=pos)
+
+
+class GenEOSWrapper(Obligation):
+    """the public GenEOS_Solver._run hands the user the DRIVER's states: the real _run is executed with RiemannGenEOS replaced
+    by a stub whose driver() leaves a 3-node table of ARBITRARY symbolic values (energies of either sign, as JWL states have);
+    every returned field at a user point is the linear interpolant of its OWN table, and every state/EOS parameter reaches the
+    driver unchanged.  Together with the closure of the driver's states (geos obligations) this is the JWL form of the returned
+    (p, rho, e)."""
+    NAMES = ('rl', 'ul', 'pl', 'gl', 'rr', 'ur', 'pr', 'gr', 'A', 'B', 'R1', 'R2', 'r0', 'e0', 'xd0')
+
+    def __init__(self, prefix='C03', repeat=False):
+        from . import riemann_common as R
+        self.R = R
+        self.repeat = repeat
+        self.id = '%s.geos.wrapper%s' % (prefix, '-repeat' if repeat else '')
+        self.ep = H.mod(R.EP)
+        self.modules = [self.ep]
+        self.functions = [self.ep.GenEOS_Solver._run]
+        self.bounds = ('states, JWL constants, membrane, time, one user point symbolic; driver output = 3-node table of arbitrary '
+                       'symbolic (x, p, rho, u, e), x increasing')
+        self.skip_validation = True
+        self.max_paths = 40
+        self._cur = {}
+        from symx.shim import sym_interp
+        self.extra_shim = {'riemann': self._stub_module(), 'interp': sym_interp, 'ExactSolution': Recorder}
+
+    def _stub_module(self):
+        real = H.mod(self.R.RM)
+        cur = self._cur
+
+        class StubGenEOS(object):
+            def __init__(s_, **kw):
+                cur['seen'].update(kw)
+
+            def driver(s_, *a):
+                mk = cur['mk']
+                # a self-similar table, as the real driver leaves it: nodes at xd0 + t w_k for the t and xd0 it was given
+                s_.t, s_.xd0 = cur['seen']['t'], cur['seen']['xd0']
+                w0 = mk('w0')
+                xs = [s_.xd0 + s_.t * w for w in (w0, w0 + mk('dw1'), w0 + mk('dw1') + mk('dw2'))]
+                s_.x = H.arr(xs)
+                for f in ('p', 'r', 'u', 'e'):
+                    setattr(s_, f, H.arr([mk('%s%d' % (f, k)) for k in range(3)]))
+                s_.Vregs = [0.0]
+                s_.soln_type = 'RCR'
+        return H.ModProxy(real, RiemannGenEOS=StubGenEOS)
+
+    def build(self, mk):
+        seen = {}
+        self._cur.update(mk=mk, seen=seen)
+        vals = {n: mk(n) for n in self.NAMES}
+        sol = self.ep.GenEOS_Solver(problem='JWL', xmin=vals['xd0'] - 1, xmax=vals['xd0'] + 1, **vals)
+        stub = self.extra_shim['riemann']
+        x, t = mk('x'), mk('t')
+        if Mode.symbolic(mk):
+            if self.repeat:
+                sol._run(H.arr([mk('x_before')]), mk('t_before'))       # an arbitrary earlier call on the same object
+            res = sol._run(H.arr([x]), t)
+        else:
+            real = self.ep.riemann
+            self.ep.riemann = stub
+            try:
+                if self.repeat:
+                    sol(np.array([float(mk('x_before'))]), mk('t_before'))
+                res = sol(np.array([float(x)]), t)
+            finally:
+                self.ep.riemann = real
+        out = H.first(H.fields(res))
+        out.update({'in_' + n: vals[n] for n in self.NAMES})
+        out.update({'kw_' + n: seen.get(n) for n in self.NAMES})
+        out['kw_t'], out['in_t'] = seen.get('t'), t
+        out['_problem'] = seen.get('problem')
+        out['x'] = x
+        for n in ('w0', 'dw1', 'dw2'):
+            out[n] = mk(n)
+        for f in ('p', 'r', 'u', 'e'):
+            for k in range(3):
+                out['%s%d' % (f, k)] = mk('%s%d' % (f, k))
+        return out
+
+    def domain(self, V):
+        return [T.gt(V('dw1'), T.ZERO), T.gt(V('dw2'), T.ZERO), T.gt(V('t'), T.ZERO)] + ([T.gt(V('t_before'), T.ZERO)] if self.repeat else [])
+
+    def claims(self, cx):
+        x, t, xd0 = cx['x'], cx['in_t'], cx['in_xd0']
+        x0 = xd0 + t * cx['w0']
+        x1 = xd0 + t * (cx['w0'] + cx['dw1'])
+        x2 = xd0 + t * (cx['w0'] + cx['dw1'] + cx['dw2'])
+        for n in (() if self.repeat else self.NAMES + ('t',)):
+            cx.eq('parameter %s reaches the driver unchanged' % n, cx['kw_' + n], cx['in_' + n])
+        if not self.repeat:
+            cx.true('the EOS flag reaches the driver', SymBool(T.TRUE if cx['_problem'] == 'JWL' else T.FALSE) if cx.symbolic else cx['_problem'] == 'JWL')
+        for name, f in (('pressure', 'p'), ('density', 'r'), ('velocity', 'u'), ('specific_internal_energy', 'e')):
+            a, b, c = cx[f + '0'], cx[f + '1'], cx[f + '2']
+            lo = (x >= x0) & (x <= x1) if cx.symbolic else bool(x0 <= x <= x1)
+            hi = (x > x1) & (x <= x2) if cx.symbolic else bool(x1 < x <= x2)
+            cx.eq('%s = interpolant of the driver\'s own %s table (first interval)' % (name, f), cx[name], a + (b - a) * (x - x0) / (x1 - x0), when=lo)
+            cx.eq('%s = interpolant of the driver\'s own %s table (second interval)' % (name, f), cx[name], b + (c - b) * (x - x1) / (x2 - x1), when=hi)
 
 
 class RiemannPointEOS(Obligation):
@@ -495,4 +594,5 @@ def obligations(tier):
     if tier == 'quick':
         gobs = [o for o in gobs if 'ode_contract' in o.id or '.RCR.00.' in o.id or '.SCS.11.' in o.id]
     obs += gobs
+    obs.append(GenEOSWrapper())
     return obs
